@@ -59,6 +59,8 @@ def _reports_upto(obs, i):
 
 def check_step(obs, i, stats=None):
     rec = obs[i]
+    if rec.get("raised"):
+        return [(f"C29:aggregator-raised:{rec['ev']}:{rec['raised'].split(':')[0]}", f"handling {rec['ev']} (step {i}) raised {rec['raised']}")]
     if not rec["new_rows"]:
         return []
     out = []
